@@ -1214,6 +1214,8 @@ def _s_join(interp, args, kwargs, node):
     sep, items = args[0], args[1]
     if isinstance(items, Opaque):
         return SegStr([OpaqueHole('joined', items.prov | prov_of(sep))])
+    if type(items).__name__ == 'NameFiltered':
+        return SegStr([OpaqueHole('joined names')])
     items = iterate(interp, items, node)
     parts = []
     for i, x in enumerate(items):
